@@ -407,7 +407,9 @@ SRV_ASSUME = [
     "the service is the fixed family the harness implements (echo / error / stream of n always-ready items / undecodable call); answers depend on the call only (per-call deterministic service)",
     "futures_util::select_biased!, fuse and StreamExt::next poll in the documented order (branch order; first ready wins); accept errors are not among the modelled events",
     "well-behaved connection = whole frames, close only after everything was sent, writable transport, whole per-connection stream below MAX_BUFFER_SIZE; nothing is assumed about other connections",
-    "liveness (every delivered call is eventually answered) is checked by the oracle at the end of each schedule (after final polls), not yet a theorem; the theorems are safety/refinement statements for every prefix",
+    "liveness: C08_quiescent proves that in every reachable idle state (no select branch can progress) every well-behaved connection whose bytes have all arrived has had all its calls answered (exactly the reference output); that the executor polls the server until idle is the waker contract (assumed); "
+    "the oracle additionally checks the same at the end of each schedule",
+    "the flags on stream items follow one of four patterns of the test service (conventional / all true / alternating / unflagged); item readiness is immediate (stream::iter)",
 ]
 
 # ------------------------------------------------------------------------------------ envelope (C04, C05)
@@ -875,7 +877,7 @@ PROPS = {
     },
     "C08": {
         "property_modules": ["Zlink.Properties.C08"], "lean_modules": ["Zlink.Properties.C08"],
-        "theorems": ["C08.C08_refinement", "C08.C08_oneway_silent", "C08.C08_one_reply", "C08.C08_in_order"],
+        "theorems": ["C08.C08_refinement", "C08.C08_quiescent", "C08.C08_oneway_silent", "C08.C08_one_reply", "C08.C08_in_order"],
         "run": run_srv_scenarios(["srv"]), "trusted_base": TB_COMMON, "assumptions": SRV_ASSUME,
     },
     "C09": {
